@@ -22,6 +22,9 @@ pub enum Ev {
     Relist,
     /// the object disappears while the watch is down (no DELETED line), then 410 Gone: only the re-list shows that it is gone
     VanishAndRelist(&'static str),
+    /// 410 Gone; during the re-list the first page is served, then the named object disappears and the request for the next page
+    /// fails, so the client aborts the listing and starts it again
+    InterruptedRelist(&'static str),
     /// the object is updated to a version without ports (cannot be converted any more)
     ModifiedNoPorts(&'static str, &'static str),
     /// an object whose labels use the metadata key `state`
@@ -35,7 +38,7 @@ fn gs(name: &str, state: &str, rv: u64, labels: &[(&str, &str)]) -> Value {
         "metadata": { "name": name, "namespace": "default", "uid": format!("uid-{name}"), "resourceVersion": rv.to_string(),
                       "labels": labels.iter().map(|(k, v)| (k.to_string(), Value::String(v.to_string()))).collect::<serde_json::Map<_, _>>() },
         "spec": {},
-        "status": { "address": format!("10.0.0.{idx}"), "ports": [{ "name": "default", "port": 7000 + idx as u16 }], "state": state }
+        "status": { "address": if name.ends_with('6') { format!("2001:db8::{idx:x}") } else { format!("10.0.0.{idx}") }, "ports": [{ "name": "default", "port": 7000 + idx as u16 }], "state": state }
     })
 }
 
@@ -49,6 +52,11 @@ struct World {
     pending: Vec<String>,
     gone: bool,
     lists: usize,
+    /// the next request for a continuation page fails with 410 Gone (the listing is aborted and restarted by the client)
+    fail_next_continue: bool,
+    /// an object that no longer exists but is still reported on the first page of the next listing (it disappeared right after
+    /// that page was produced): name, state, resourceVersion
+    stale_on_first_page: Option<(String, String, u64)>,
 }
 
 async fn serve(listener: TcpListener, world: Arc<Mutex<World>>) {
@@ -97,16 +105,39 @@ async fn serve(listener: TcpListener, world: Arc<Mutex<World>>) {
                 }
                 let _ = s.write_all(b"0\r\n\r\n").await;
             } else {
-                let body = {
+                // paged list: `limit` objects per page, the continue token is the index of the next object
+                let param = |k: &str| -> Option<String> { target.split(['?', '&']).find_map(|p| p.strip_prefix(&format!("{k}=")).map(|v| v.to_string())) };
+                let limit: usize = param("limit").and_then(|v| v.parse().ok()).unwrap_or(500);
+                let cont: Option<usize> = param("continue").and_then(|v| v.parse().ok());
+                let (status_line, body) = 'resp: {
                     let mut w = world.lock().unwrap();
-                    w.lists += 1;
-                    w.pending.clear();
+                    if cont.is_some() && w.fail_next_continue {
+                        w.fail_next_continue = false;
+                        let b = json!({"kind": "Status", "apiVersion": "v1", "status": "Failure", "message": "the provided continue parameter is too old", "reason": "Expired", "code": 410}).to_string();
+                        break 'resp ("410 Gone", b);
+                    }
+                    if cont.is_none() {
+                        w.lists += 1;
+                        w.pending.clear();
+                    }
                     let mut items: Vec<Value> = w.noports.iter().map(|(n, (st, rv))| { let mut o = gs(n, st, *rv, &[]); o["status"]["ports"] = json!([]); o }).collect();
                     let listed: Vec<Value> = w.objects.iter().map(|(n, (st, rv, lab))| match lab { Some(l) => gs(n, st, *rv, &[("state", l.as_str())]), None => gs(n, st, *rv, &[]) }).collect();
                     items.extend(listed);
-                    json!({"apiVersion": "agones.dev/v1", "kind": "GameServerList", "metadata": {"resourceVersion": w.rv.to_string()}, "items": items}).to_string()
+                    if cont.is_none() {
+                        if let Some((n, st, rv)) = w.stale_on_first_page.take() {
+                            items.insert(0, gs(&n, &st, rv, &[]));
+                        }
+                    }
+                    let start = cont.unwrap_or(0).min(items.len());
+                    let end = (start + limit).min(items.len());
+                    let page: Vec<Value> = items[start..end].to_vec();
+                    let mut meta = json!({"resourceVersion": w.rv.to_string()});
+                    if end < items.len() {
+                        meta["continue"] = json!(end.to_string());
+                    }
+                    ("200 OK", json!({"apiVersion": "agones.dev/v1", "kind": "GameServerList", "metadata": meta, "items": page}).to_string())
                 };
-                let resp = format!("HTTP/1.1 200 OK\r\ncontent-type: application/json\r\ncontent-length: {}\r\nconnection: close\r\n\r\n{}", body.len(), body);
+                let resp = format!("HTTP/1.1 {status_line}\r\ncontent-type: application/json\r\ncontent-length: {}\r\nconnection: close\r\n\r\n{}", body.len(), body);
                 let _ = s.write_all(resp.as_bytes()).await;
             }
             let _ = s.shutdown().await;
@@ -136,7 +167,7 @@ fn ready(state: &str) -> bool { state == "Ready" || state == "Allocated" }
 async fn run_history(name: &str, initial: &[(&'static str, &'static str)], hist: &[Ev]) -> usize {
     let listener = TcpListener::bind("127.0.0.1:0").await.expect("bind");
     let port = listener.local_addr().unwrap().port();
-    let world = Arc::new(Mutex::new(World { objects: BTreeMap::new(), noports: BTreeMap::new(), rv: 100, pending: vec![], gone: false, lists: 0 }));
+    let world = Arc::new(Mutex::new(World { objects: BTreeMap::new(), noports: BTreeMap::new(), rv: 100, pending: vec![], gone: false, lists: 0, fail_next_continue: false, stale_on_first_page: None }));
     {
         let mut w = world.lock().unwrap();
         for (n, st) in initial {
@@ -158,7 +189,7 @@ async fn run_history(name: &str, initial: &[(&'static str, &'static str)], hist:
     let path = std::env::temp_dir().join(format!("verif-kubeconfig-{}-{port}", std::process::id()));
     std::fs::write(&path, kubeconfig).expect("kubeconfig");
     unsafe { std::env::set_var("KUBECONFIG", &path); }
-    let adapter = match AgonesDiscoveryAdapter::new(None, WatchConfig::default()).await {
+    let adapter = match AgonesDiscoveryAdapter::new(None, WatchConfig::default().page_size(2)).await {
         Ok(a) => a,
         Err(e) => { eprintln!("agones: adapter did not start: {e}"); server.abort(); let _ = std::fs::remove_file(&path); return 0; }
     };
@@ -187,7 +218,7 @@ async fn run_history(name: &str, initial: &[(&'static str, &'static str)], hist:
                 Ev::Added(n, st) => { w.objects.insert(n.to_string(), (st.to_string(), rv, None)); let l = json!({"type": "ADDED", "object": gs(n, st, rv, &[])}).to_string(); w.pending.push(l); }
                 Ev::Modified(n, st) => { w.objects.insert(n.to_string(), (st.to_string(), rv, None)); let l = json!({"type": "MODIFIED", "object": gs(n, st, rv, &[])}).to_string(); w.pending.push(l); }
                 Ev::Deleted(n) => { let old = w.objects.remove(*n); let st = old.map(|o| o.0).unwrap_or_else(|| "Shutdown".to_string()); let l = json!({"type": "DELETED", "object": gs(n, &st, rv, &[])}).to_string(); w.pending.push(l); }
-                Ev::Relist | Ev::VanishAndRelist(_) => {}
+                Ev::Relist | Ev::VanishAndRelist(_) | Ev::InterruptedRelist(_) => {}
                 Ev::ModifiedNoPorts(n, st) => {
                     w.objects.remove(*n);
                     w.noports.insert(n.to_string(), (st.to_string(), rv));
@@ -213,6 +244,10 @@ async fn run_history(name: &str, initial: &[(&'static str, &'static str)], hist:
             match ev {
                 Ev::Relist => { w.pending.clear(); w.gone = true; }
                 Ev::VanishAndRelist(n) => { w.objects.remove(*n); w.pending.clear(); w.gone = true; }
+                Ev::InterruptedRelist(n) => {
+                    if let Some((st, rv, _)) = w.objects.remove(*n) { w.stale_on_first_page = Some((n.to_string(), st, rv)); }
+                    w.fail_next_continue = true; w.pending.clear(); w.gone = true;
+                }
                 _ => {}
             }
         }
@@ -243,6 +278,8 @@ pub fn histories(_seed: u64) -> usize {
         ("no-ports-any-more", vec![("gs-a", "Ready"), ("gs-b", "Allocated")], vec![ModifiedNoPorts("gs-a", "Ready"), Modified("gs-b", "Shutdown")]),
         ("deleted-then-back", vec![("gs-a", "Ready")], vec![Deleted("gs-a"), Added("gs-a", "Starting"), Modified("gs-a", "Ready"), Deleted("gs-a")]),
         ("relist-after-changes", vec![("gs-a", "Ready")], vec![Added("gs-b", "Ready"), VanishAndRelist("gs-a"), Modified("gs-b", "Allocated"), Relist, Deleted("gs-b")]),
+        ("interrupted-relist", vec![("gs-a", "Ready"), ("gs-b", "Ready"), ("gs-c", "Allocated")], vec![InterruptedRelist("gs-a"), Modified("gs-b", "Shutdown")]),
+        ("ipv6-address", vec![("gs-v6", "Ready")], vec![Added("gs-w6", "Allocated"), Modified("gs-v6", "Shutdown"), Modified("gs-v6", "Ready")]),
         ("label-named-state-hides-a-ready-server", vec![], vec![AddedLabeled("gs-a", "Ready", "blue")]),
         ("label-named-state-offers-a-stopped-server", vec![("gs-b", "Ready")], vec![AddedLabeled("gs-a", "Shutdown", "Ready")]),
     ];
